@@ -118,9 +118,9 @@ PROPS["C10"]["explanation"] += "; connector consumers in the engine harness (1..
 
 # two workflows sharing the bundled in-memory adapters (real goroutines): roles, receiver names, topics, timers and outbox listings
 # must keep them apart; the answer each gives alone is what the engine theorems say of one workflow
-for _pid in ("C01", "C06", "C10", "C14"):
+for _pid in ("C01", "C06", "C10", "C14", "C15"):
     PROPS[_pid]["families"] = PROPS[_pid]["families"] + ["twowf"]
-    PROPS[_pid]["explanation"] += "; two workflows of different names on ONE in-memory streamer / record store / role scheduler / timeout store: every run of both completes and every hook runs to success"
+    PROPS[_pid]["explanation"] += "; two workflows of different names on ONE in-memory streamer / record store / role scheduler / timeout store: every run of both completes, every hook runs to success and every requested deletion is served by the custom delete function"
     PROPS[_pid]["assumptions"] = PROPS[_pid]["assumptions"] + ["twowf: real goroutines on the in-memory adapters; 'completed' is awaited with a bound (4 s, repeated once with 15 s; a rejected case is re-run by check)"]
 
 # C09 composed with the bundled store: Trigger on the real memrecordstore while older runs are written again
